@@ -34,6 +34,18 @@ def run_files(index):
     return out
 
 
+def one_shot_tables(index, rep):
+    rule = "C14.STATE"
+    from .memo import module_level_one_shot
+    hits = module_level_one_shot(index, run_files(index))
+    for rel, st, name, readers in hits:
+        rep.violation(rule, f"one-shot-table:{rel}:{name}",
+                      f"module-level `{name}` is a one-shot iterator (a generator expression / zip / map ...) read by {readers[:3]}: the first run in "
+                      "the process consumes it, later runs iterate over nothing - their result depends on what ran before", loc=loc(rel, st))
+    if not hits:
+        rep.ok(rule, "no module-level one-shot iterator is read by run code", detail="generator expressions, zip/map/filter/iter bound at module level")
+
+
 def loop_carried(index, rep):
     """a container created before a loop over simulations / countries, changed inside the loop and handed to the run started in the same
     iteration carries one iteration's entries into the next (options of simulation k reach simulation k+1)"""
@@ -79,6 +91,7 @@ def loop_carried(index, rep):
 def run(index, rep):
     rep.guard(loop_carried, index, rep)
     rep.guard(state, index, rep)
+    rep.guard(one_shot_tables, index, rep)
     rep.guard(reset, index, rep)
     rep.guard(fresh, index, rep)
     rep.guard(det, index, rep)
@@ -231,8 +244,17 @@ def shared_container_writes(index, rel):
     mod = index.module(rel)
     containers = {}
 
+    def np_built(v):
+        """an array built by a numpy constructor, possibly scaled/shifted by arithmetic (`np.array([...]) * 1 / (1 - 0.12)`)"""
+        if isinstance(v, ast.BinOp):
+            return np_built(v.left) or np_built(v.right)
+        if isinstance(v, ast.UnaryOp):
+            return np_built(v.operand)
+        return isinstance(v, ast.Call) and (dotted(v.func) or "") in ("np.array", "np.zeros", "np.ones", "np.full", "np.empty", "np.arange", "np.linspace",
+                                                                      "np.asarray", "np.concatenate", "np.repeat", "np.tile")
+
     def is_container(v):
-        return isinstance(v, (ast.List, ast.Dict, ast.Set)) or (isinstance(v, ast.Call) and (dotted(v.func) or "").split(".")[-1] in (
+        return np_built(v) or isinstance(v, (ast.List, ast.Dict, ast.Set)) or (isinstance(v, ast.Call) and (dotted(v.func) or "").split(".")[-1] in (
             "list", "dict", "set", "defaultdict", "OrderedDict", "Counter", "deque")) or (
             isinstance(v, ast.Call) and (dotted(v.func) or "") in ("np.array", "np.zeros", "np.ones", "np.full", "np.empty", "np.arange", "np.linspace",
                                                                     "np.asarray", "pd.DataFrame", "pd.Series"))
@@ -259,10 +281,18 @@ def shared_container_writes(index, rel):
                 continue
             # locals that are another name for the shared object: `x = self.NAME` / `x = Cls.NAME` / `x = NAME` (no copy made)
             aliases = set()
+            is_array = np_built(st.value)
+
+            def shared_ref(e_):
+                """the shared object itself - or, for a numpy array, a basic slice of it (a view: writes go through)"""
+                if e_ is not None and is_array and isinstance(e_, ast.Subscript) and isinstance(e_.slice, ast.Slice):
+                    e_ = e_.value
+                dv_ = dotted(e_) or "" if e_ is not None else ""
+                return bool(dv_) and ((dv_ == short and kind == "module" and not shadows) or (dv_.endswith("." + short) and kind == "class"))
+
             for s in walk_no_nested(fn):
                 if isinstance(s, ast.Assign) and len(s.targets) == 1 and isinstance(s.targets[0], ast.Name):
-                    dv = dotted(s.value) or ""
-                    if (dv == short and kind == "module" and not shadows) or (dv.endswith("." + short) and kind == "class"):
+                    if shared_ref(s.value):
                         aliases.add(s.targets[0].id)
             # one-level copies (`dict(X)`, `X.copy()`, `list(X)`, `copy.copy(X)`, `{**X}`) of a shared container whose values are containers
             # themselves: the inner objects are still the shared ones - a store two subscripts deep writes into them
@@ -304,8 +334,7 @@ def shared_container_writes(index, rel):
                         defs_here = _reaching(fn, s).get(s.target.id, [])
                     except Exception:
                         defs_here = [None]
-                    if any(d_ is None or (dotted(d_) or "") == short and kind == "module" or (dotted(d_) or "").endswith("." + short) and kind == "class"
-                           for d_ in defs_here):
+                    if any(d_ is None or shared_ref(d_) for d_ in defs_here):
                         bad.append(f"{fn.name}:{s.lineno}")
                 if isinstance(s, ast.AugAssign) and isinstance(s.target, ast.Attribute):
                     d = dotted(s.target) or ""
